@@ -190,6 +190,6 @@ def main(argv, tier='quick'):
     print(f'selftest: {len(results)} variants in {time.time() - t0:.1f}s: {summary}')
     (VERIF / 'evidence').mkdir(exist_ok=True)
     if os.environ.get('PBV_REPO', '/repo') == '/repo':
-        (VERIF / 'evidence' / 'selftest.json').write_text(json.dumps(dict(summary=summary, results=results), indent=1))
+        (VERIF / 'selftest_report.json').write_text(json.dumps(dict(summary=summary, results=results), indent=1))
     bad = [r for r in results if r['status'] in ('false-alarm', 'error')]
     return 1 if bad else 0
